@@ -632,3 +632,6 @@ def run(rep, program: Program, tier: str) -> None:
     from . import transim
 
     rep.isolate(transim.rule, rep, program, PROP, "R9")
+    # traced quantities that are cached in the state (the Hamiltonian) are those of the row's state and of the sampler's
+    # own system only if the cache key identifies the system object (shared with C09-R6)
+    rep.isolate(c09.rule_r6, rep, program, prop=PROP, rule="R10")
